@@ -164,7 +164,10 @@ func step(st regState, in input, out output) (bool, regState) {
 	switch in.Kind {
 	case opInst, opInstHost:
 		if out.OK {
-			if s.rtClosed || s.rtClosing {
+			// While the runtime is closing (relaxed specification only: between
+			// its flag and release points) an instantiation admitted before the
+			// flag may still complete; the release point closes its module.
+			if s.rtClosed {
 				return false, st
 			}
 			if in.Name != "" {
